@@ -3,6 +3,7 @@ import LekkerVerif.Properties.C02
 import LekkerVerif.Properties.C03
 import LekkerVerif.Properties.C04
 import LekkerVerif.Properties.C05
+import LekkerVerif.Properties.C05Defaults
 import LekkerVerif.Properties.C06
 import LekkerVerif.Properties.C07
 import LekkerVerif.Properties.C08
